@@ -1,6 +1,7 @@
 // c08: reliable tubes deliver the written byte stream in order, intact and complete.
 //   recv.go  white-box: frame sequences into the real tubes.receiver vs Model/Recv.v
 //   send.go  white-box: operation sequences on the sender of a real tubes.Reliable vs Model/Send.v
+//   sendone.go white-box: call sequences on the real Reliable.sendOneFrame (acknowledgement suppression) vs Model/SendOne.v
 //   net.go   black-box: two real muxers over a scheduling in-memory MsgConn pair with seeded faults
 package main
 
@@ -14,12 +15,16 @@ func main() {
 	defer hv.Flush()
 	r := hv.NewRand(hv.Seed())
 	only := os.Getenv("C08_ONLY") // debugging aid: "net" or "white"
-	if only != "net" {
+	if only != "net" && only != "sendone" {
 		genUnwrap(r)
 		genRecv(r)
 		genSend(r)
 	}
-	if only != "white" {
+	if only != "net" {
+		genSendOne(r)
+		genWindowWrap(r)
+	}
+	if only != "white" && only != "sendone" {
 		genNet(r)
 	}
 }
